@@ -61,8 +61,12 @@ class _Reg:
 
 
 def rp_stub(frame, spacing=None, **kw):
+    if isinstance(frame, np.ndarray):
+        from sx.arr import _as_sarr
+
+        frame = _as_sarr(frame)
     if not isinstance(frame, SArr):
-        raise Unsupported("regionprops stub on a real array")
+        raise Unsupported("regionprops stub on " + type(frame).__name__)
     if spacing is None:
         spacing = (1,) * frame.c.ndim
     out = []
@@ -74,6 +78,10 @@ def rp_stub(frame, spacing=None, **kw):
 
 
 def iou_stub(f1, f2):
+    from sx.arr import _as_sarr
+
+    f1 = _as_sarr(f1) if isinstance(f1, np.ndarray) else f1
+    f2 = _as_sarr(f2) if isinstance(f2, np.ndarray) else f2
     c1, c2 = f1.cells(), f2.cells()
     pres1 = [a for a in LABELS if cur().decide(Or([x == a for x in c1]))]
     pres2 = [b for b in LABELS if cur().decide(Or([y == b for y in c2]))]
